@@ -906,7 +906,9 @@ pub fn step(cfg: &Cfg, sut: &mut Sut, m: &mut Model, pre: &Snapshot, op: Op, has
     let post_phys = phys(&post);
 
     // ---- M-map: update, and lookups against MAY / MUST
-    if let Op::Adv(n) = op {
+    if let Op::Adv(n) | Op::IterAdv(n) = op {
+        // (IterAdv: the iterator is consumed after the advance, so everything it yields
+        // is a lookup at the new reading)
         m.now += n as i64 * cfg.tick_ms as i64;
         m.advances += 1;
     }
@@ -1036,7 +1038,7 @@ pub fn step(cfg: &Cfg, sut: &mut Sut, m: &mut Model, pre: &Snapshot, op: Op, has
                 m.excess_ok = false;
             }
         }
-        Op::Iter => {
+        Op::Iter | Op::IterAdv(_) => {
             if let Obs::Items(items) = &obs {
                 let mut seen_keys: Vec<u8> = Vec::new();
                 for (k, id) in items {
@@ -1423,6 +1425,16 @@ pub fn step(cfg: &Cfg, sut: &mut Sut, m: &mut Model, pre: &Snapshot, op: Op, has
             } else {
                 viol.push(v("C12", format!("{kdn}:recency-order:{okind}"), d));
             }
+        }
+    }
+
+    // ---- a sync() with nobody else around drains both queues (fewer ops than a batch):
+    // ops left behind keep their entries alive (C11), are never accounted (C10) and mean
+    // maintenance does not do its work (C09)
+    if !u && (matches!(op, Op::Sync) || cfg.autosync) && pre.read_ops.len() < 60 && pre.write_ops.len() < 60 && pending > 0 {
+        let d = format!("after {}: {} read and {} write ops are still queued although maintenance has just run and no other thread exists", op.text(), post.read_ops.len(), post.write_ops.len());
+        for p in ["C09", "C10", "C11"] {
+            viol.push(v(p, format!("{kdn}:sync-left-ops-queued"), d.clone()));
         }
     }
 
